@@ -7,7 +7,7 @@ CONSTANTS
  Dev = {"badevent", "status", "readerr", "partial", "dedup"}
  TrimOn = "match"
  Defect = "none"
- MaxFeeds = 4
+ MaxFeeds = 3
  MaxDials = 1
  MaxTime = 1
  MaxSubs = 1
